@@ -175,36 +175,51 @@ def load_baseline(prop: str) -> dict:
         return json.load(f)
 
 
-def matches_known(o: dict, k: dict) -> bool:
-    """A listed finding covers a failed obligation only for the specific failure it describes.
-    For bounded checks every reported failure record must match the finding:
+def record_matches(f, k: dict) -> bool:
+    """Does one failure record of a bounded check match one listed finding?
       checks_allowed  - its label (check/clause) is one of these strings;
       checks_contains - its label contains one of these substrings;
       case_contains   - the text of its `case` contains all of these substrings."""
-    keys = [x for x in ('checks_allowed', 'checks_contains', 'case_contains') if k.get(x)]
-    if not keys:
-        return True
+    if not isinstance(f, dict):
+        return False
+    label = str(f.get('check') or f.get('clause') or '')
+    if k.get('checks_allowed') and label not in k['checks_allowed']:
+        return False
+    if k.get('checks_contains') and not any(sub in label for sub in k['checks_contains']):
+        return False
+    if k.get('case_contains'):
+        txt = json.dumps(f.get('case'), default=str) if not isinstance(f.get('case'), str) else f.get('case')
+        if not all(sub in txt for sub in k['case_contains']):
+            return False
+    return True
+
+
+def matches_known(o: dict, ks) -> list:
+    """Listed findings cover a failed obligation only for the specific failures they describe.  `ks`: the findings listed
+    for this obligation (several genuine defects may surface in one bounded check).  Returns the findings that apply, or []
+    when some failure is not covered: for bounded checks EVERY reported failure record must match at least one finding."""
+    if isinstance(ks, dict):
+        ks = [ks]
+    plain = [k for k in ks if not any(k.get(x) for x in ('checks_allowed', 'checks_contains', 'case_contains'))]
     fails = ((o.get('model') or {}).get('failures')) or []
     if not fails:
-        return False
+        return plain[:1]
+    used = []
     for f in fails:
-        if not isinstance(f, dict):
-            return False
-        label = str(f.get('check') or f.get('clause') or '')
-        if k.get('checks_allowed') and label not in k['checks_allowed']:
-            return False
-        if k.get('checks_contains') and not any(sub in label for sub in k['checks_contains']):
-            return False
-        if k.get('case_contains'):
-            txt = json.dumps(f.get('case'), default=str) if not isinstance(f.get('case'), str) else f.get('case')
-            if not all(sub in txt for sub in k['case_contains']):
-                return False
-    return True
+        hit = next((k for k in ks if record_matches(f, k) or k in plain), None)
+        if hit is None:
+            return []
+        if not any(hit is u for u in used):
+            used.append(hit)
+    return used
 
 
 def finish(prop, tier, seed, pm, funcs: list[dict], extras: list[Extra], t0, update_baseline=False) -> int:
     known = [k for k in load_known() if k.get('property') == prop]
-    known_open = {k['obligation']: k for k in known if k.get('status') == 'finding'}
+    known_open: dict = {}
+    for k in known:
+        if k.get('status') == 'finding':
+            known_open.setdefault(k['obligation'], []).append(k)
     obligations = []
     crash = []
     undecided = []
@@ -250,13 +265,14 @@ def finish(prop, tier, seed, pm, funcs: list[dict], extras: list[Extra], t0, upd
                 undecided.append(f'{name}: obligation of the committed baseline was not generated (vacuity guard)')
     for o in obligations:
         if o['status'] == 'failed':
-            if o['name'] in known_open and matches_known(o, known_open[o['name']]):
-                known_lines.append((o, known_open[o['name']]))
+            hit = matches_known(o, known_open[o['name']]) if o['name'] in known_open else []
+            if hit:
+                known_lines.extend((o, k) for k in hit)
             else:
                 violations.append(o)
         elif o['status'] in ('unknown',):
             if o['name'] in known_open:
-                known_lines.append((o, known_open[o['name']]))
+                known_lines.append((o, known_open[o['name']][0]))
                 continue
             b = base_obl.get(o['name']) or base_obl.get(base_name(o['name']))
             o['regressed'] = bool(b and b.get('status') == 'discharged' and b.get('sha') != o.get('sha', ''))
@@ -269,14 +285,15 @@ def finish(prop, tier, seed, pm, funcs: list[dict], extras: list[Extra], t0, upd
         if e.status == 'failed':
             o = {'name': e.name, 'kind': 'bounded', 'status': 'failed', 'backend': e.backend, 'seconds': e.seconds,
                  'note': e.detail, 'model': e.witness, 'function': '', 'sha': '', 'native': True}
-            if e.name in known_open and matches_known(o, known_open[e.name]):
-                known_lines.append((o, known_open[e.name]))
+            hit = matches_known(o, known_open[e.name]) if e.name in known_open else []
+            if hit:
+                known_lines.extend((o, k) for k in hit)
             else:
                 violations.append(o)
         elif e.status in ('unknown', 'error'):
             undecided.append(f'{e.name}: {e.detail[:300]}')
     # a listed finding that no longer fails is reported (not an error)
-    stale = [k for name, k in known_open.items() if not any(o['name'] == name for o, _ in known_lines)]
+    stale = [k for name, lst in known_open.items() for k in lst if not any(kk is k for _, kk in known_lines)]
     # replays
     vio_lines = []
     for o in violations:
@@ -318,7 +335,7 @@ def finish(prop, tier, seed, pm, funcs: list[dict], extras: list[Extra], t0, upd
         print(f'note: listed finding no longer observed: {k["obligation"]}')
     n_ob = len(obligations)
     n_dis = len([o for o in obligations if o['status'] == 'discharged'])
-    n_known = len(known_lines)
+    n_known = len({o['name'] for o, _ in known_lines})
     secs = {}
     for o in obligations:
         b = (o.get('backend') or '?').split('(')[0]
